@@ -1,1 +1,2 @@
 import Props.C04
+import Props.C06
